@@ -39,7 +39,9 @@ AllDevs  == {DevFalsy, DevDynNs, DevPath}
 \*   k = "int" | "str" | "map" | "none" | "unspec";  a = the atom as text;  m = the mapping (names -> values);
 \*   fz = the mapping is an AttributesFrozendict (read-only) rather than a dict.
 V(k, a, m, fz) == [k |-> k, a |-> a, m |-> m, fz |-> fz]
-NoneV     == V("none", "", <<>>, FALSE)      \* python None (Process(inputs=None))
+NoneV     == V("none", "", <<>>, FALSE)      \* python None: Process(inputs=None), and None as a SUPPLIED value (given for a
+                                             \* port or an undeclared key, returned by a default): not an int, not a str, not a
+                                             \* mapping, falsy, and NOT the same as "nothing supplied" (Unspec)
 Unspec    == V("unspec", "", <<>>, FALSE)    \* ports.UNSPECIFIED; also "key absent" in the declarative part
 Int(a)    == V("int", a, <<>>, FALSE)        \* a \in {"0", "-1", "7"}
 Str(a)    == V("str", a, <<>>, FALSE)        \* a \in {"s", "d", ""}
@@ -467,9 +469,16 @@ Vals  == {"none", "nonneg"}
 \* anything) a callable returning a value of the wrong type / a negative one
 GoodDefault(vt) == IF vt = "str" THEN Str("d") ELSE Int("7")
 BadDefault(vt)  == IF vt = "int" THEN Str("d") ELSE IF vt = "str" THEN Int("7") ELSE Int("-1")
+\* ... and None, plain (`default=None`) or returned by a callable: a value like any other for an untyped port, of the
+\* wrong type for a typed one
 DefaultsFor(vt, val) == {NoDefault, Plain(GoodDefault(vt)), Call(GoodDefault(vt))}
                         \cup (IF vt # "none" \/ val # "none" THEN {Call(BadDefault(vt))} ELSE {})
-AllInputLeaves  == UNION {{InputPort(r, tv[1], d, tv[2]) : r \in BOOLEAN, d \in DefaultsFor(tv[1], tv[2])} : tv \in Types \X Vals}
+                        \cup {Plain(NoneV), Call(NoneV)}
+\* InputPort.__init__: a default that is not callable is validated by the port itself when the port is declared
+\* (`self.validate(default)` -> ValueError 'Invalid default value'): such a port is not part of any spec that can be built
+Declarable(p)   == p.def.k = "plain" => ~PortValidate(p, p.def.v).err
+AllInputLeaves  == {p \in UNION {{InputPort(r, tv[1], d, tv[2]) : r \in BOOLEAN, d \in DefaultsFor(tv[1], tv[2])} : tv \in Types \X Vals}
+                      : Declarable(p)}
 AllOutputLeaves == {OutputPort(r, t, v) : r \in BOOLEAN, t \in Types, v \in Vals}
 \* namespace attributes: [req, vt, dyn, pop, val]
 NsAttr(req, vt, dyn, pop, val) == [req |-> req, vt |-> vt, dyn |-> dyn, pop |-> pop, val |-> val]
@@ -499,7 +508,11 @@ TreesOf(RS, LS, MS, M2, n, kids) ==
 
 \* --- inputs of a tree (C11): every nested dictionary giving each declared leaf a value of LeafVals or nothing, each
 \* declared namespace nothing, a non-mapping of NsBad, or such a dictionary, and one undeclared key "z" a value of
-\* ZTop (root level) / ZSub (below) or nothing; plus inputs=None
+\* ZTop (root level) / ZSub (below) or nothing; plus inputs=None.  "Nothing" (the key is left out) and None (the key is
+\* there and holds None) are different instances: LeafVals / ZTop / ZSub may contain NoneV.  NoneV in NsBad = None given
+\* for a declared namespace: PortNamespace.validate reads it as {} and pre_process leaves it in place, so `inputs.<ns>` is
+\* None where FrozenOK / ParsedOK demand a completed read-only mapping; the harness keeps that instance class switched off
+\* (ports_model.NONE_FOR_NAMESPACE) until the library is repaired or the behaviour is a listed finding.
 RECURSIVE DictsFor(_, _, _, _, _, _), DictLoop(_, _, _, _, _, _, _)
 DictLoop(ns, i, depth, LeafVals, NsBad, ZTop, ZSub) ==
   IF i > Len(ns.ports)
